@@ -802,6 +802,16 @@ OP_CTOR = {"H": "Hadamard", "X": "Pauli::X", "Y": "Pauli::Y", "Z": "Pauli::Z", "
 # probe variants for the list-of-targets forms: 0 = distinct qubits, 1 = a qubit listed twice (the single-target gate is applied
 # once per LISTED qubit, in order), 2 = the empty list (nothing is applied)
 VARIANT_TARGETS = {1: [3, 0, 3], 2: []}
+# variants 3 and 4: special parameter values (an angle that is exactly 0: wrappers with a shortcut for a special value must still agree)
+VARIANT_PARAMS = {3: {"P": ["0.0"], "RX": ["0.0"], "RY": ["0.0"], "RZ": ["0.0"], "RYP": ["0.0", "-3.7"], "RYPdag": ["0.0", "-3.7"], "Match": ["0.0", "0.4", "-4.1"]},
+                  4: {"RYP": ["6.9", "0.0"], "RYPdag": ["6.9", "0.0"], "Match": ["6.9", "0.0", "-4.1"]}}
+def param_variants(e):
+    if not any(role.startswith("param") for _, role, _ in e["roles"]): return []
+    return [v for v in (3, 4) if e.get("family") in VARIANT_PARAMS[v]]
+def oracle_key(op, variant):
+    return "%s#%d" % (op, variant) if variant in VARIANT_PARAMS and op in VARIANT_PARAMS[variant] else op
+def params_of(op, variant):
+    return VARIANT_PARAMS.get(variant, {}).get(op) or OP_PARAMS[op]
 LAST_VARIANTS = []
 def has_variants(e):
     return e.get("form") in ("FMulti", "FCtrl") and e.get("family") != "SWAP" and any(role == "targets" and is_list for _, role, is_list in e["roles"])
@@ -809,7 +819,7 @@ def has_variants(e):
 def role_value(role, op, variant=0):
     if role == "targets" and op != "SWAP" and variant in VARIANT_TARGETS: return VARIANT_TARGETS[variant]
     if role == "targets" and op == "SWAP": return [1, 3]
-    if role.startswith("param"): return OP_PARAMS[op][int(role[5:])]
+    if role.startswith("param"): return params_of(op, variant)[int(role[5:])]
     return ROLE_VAL[role]
 
 def expected_calls(e, variant=0):
@@ -820,9 +830,10 @@ def expected_calls(e, variant=0):
     def one(r): return rv[r][0] if r in rv else None
     ts = one("targets") if "targets" in rv else [x for r in ("target", "target1", "target2") if r in rv for x in rv[r]]
     cs = one("controls") if "controls" in rv else [x for r in ("control", "control1", "control2") if r in rv for x in rv[r]]
+    extra = [("X", [0], [])] if e.get("surface") == "macro" and e["arm"]["trailing"] else []     # the gate written after a non-final arm
     if e["form"] in ("FMulti", "FCtrl"):
-        return [(e["family"], [t], cs) for t in ts]
-    return [(e["family"], ts, cs)]
+        return [(e["family"], [t], cs) for t in ts] + extra
+    return [(e["family"], ts, cs)] + extra
 
 def rust_arg(value, kind, typ):
     if kind == "ql":
@@ -841,6 +852,7 @@ def gen_rust(entries):
         if e.get("family") is None or e.get("roles") is None: continue
         work.append((idx, 0))
         if has_variants(e): work += [(idx, 1), (idx, 2)]
+        work += [(idx, v) for v in param_variants(e)]
     for idx, variant in work:
         e = entries[idx]
         vals = [role_value(role, e["family"], variant) for _, role, _ in e["roles"]]
@@ -866,7 +878,7 @@ def gen_rust(entries):
             else:
                 calls.append("    { let mut b = CircuitBuilder::new(N); b.%s(%s); emit_builder(%d, p, &st, Ok(()), &mut b); }" % (name, args, i))
         elif s == "macro":
-            inv = "%s(%s)%s" % (name, args, ", " if e["arm"]["trailing"] else "")
+            inv = "%s(%s)%s" % (name, args, ", x(0)" if e["arm"]["trailing"] else "")          # a non-final arm must go on to the rest
             calls.append("    emit_circuit(%d, p, &st, circuit!(qubits: N, %s));" % (i, inv))
     # operate: every operator, plain and with the controls of the controlled forms
     oper = []
@@ -881,7 +893,17 @@ def gen_rust(entries):
                 recv = "Ok::<State, Error>(st.clone())" if chain else "st"
                 calls.append("    emit_state(%d, p, %s.operate(%s, &[%s], &[%s]));" % (i, recv, ctor, ", ".join(map(str, ts)), ", ".join(map(str, cs))))
                 oper.append(dict(op=op, ts=ts, cs=cs, chain=chain))
-    src = RUST_HEAD.replace("@N@", str(NPROBE)) + "\n".join(calls) + RUST_TAIL
+    vo = []
+    for v, ops in sorted(VARIANT_PARAMS.items()):
+        for op, ps in sorted(ops.items()):
+            x = [float(t) for t in ps]
+            if op == "P": ex = "cs(%r)" % x[0]
+            elif op in ("RX", "RY", "RZ"): ex = "cs(%r / 2.0)" % x[0]
+            elif op == "RYP": ex = "{ let mut o = cs(%r / 2.0); o.extend(cs(%r)); o }" % (x[0], x[1])
+            elif op == "RYPdag": ex = "{ let mut o = cs(%r / 2.0); o.extend(cs(-(%r))); o }" % (x[0], x[1])
+            else: ex = "{ let mut o = cs(%r / 2.0); o.extend(cs(%r)); o.extend(cs(%r)); o }" % (x[0], x[1], x[2])
+            vo.append('    orc.insert("%s#%d".to_string(), serde_json::to_value(&(%s)).unwrap());' % (op, v, ex))
+    src = RUST_HEAD.replace("@N@", str(NPROBE)).replace("@VARIANT_ORACLES@", "\n".join(vo)) + "\n".join(calls) + RUST_TAIL
     return src, plan, oper
 
 RUST_HEAD = r'''// GENERATED by /verif/vlib/wiring.py: calls every gate surface of quant-iron on probe states. Do not edit.
@@ -924,7 +946,10 @@ fn main() {
     let mut rypd = cs(6.9 / 2.0); rypd.extend(cs(3.7));
     let mut mt = cs(6.9 / 2.0); mt.extend(cs(0.4)); mt.extend(cs(-4.1));
     let u: Vec<String> = UMAT.iter().flat_map(|r| r.iter().flat_map(|c| [hexf(c.re), hexf(c.im)])).collect();
-    println!("{}", json!({"oracles": {"P": cs(7.3), "RX": cs(7.3 / 2.0), "RY": cs(7.3 / 2.0), "RZ": cs(7.3 / 2.0), "U2": u, "RYP": ryp, "RYPdag": rypd, "Match": mt}}));
+    let mut orc = serde_json::Map::new();
+    for (k, v) in [("P", cs(7.3)), ("RX", cs(7.3 / 2.0)), ("RY", cs(7.3 / 2.0)), ("RZ", cs(7.3 / 2.0)), ("U2", u), ("RYP", ryp), ("RYPdag", rypd), ("Match", mt)] { orc.insert(k.to_string(), json!(v)); }
+@VARIANT_ORACLES@
+    println!("{}", json!({"oracles": orc}));
     for (p, pv) in inp["probes"].as_array().unwrap().iter().enumerate() {
         let flat: Vec<f64> = pv.as_array().unwrap().iter().map(|h| f64::from_bits(u64::from_str_radix(h.as_str().unwrap(), 16).unwrap())).collect();
         let st = State { state_vector: flat.chunks(2).map(|c| Complex::new(c[0], c[1])).collect(), num_qubits: N };
